@@ -392,21 +392,37 @@ def eval_lines(tools, cases, asan=False):
             d['spec'] = tk
             d['fail'] = classify_lines(tk)
         res.append(d)
-    # root cause classification through the model's ghost tags (only when the model reproduces the output exactly):
-    # a failing output that contains a stale ip2 (tag 3: the GetIntersection call whose result the code ignores
-    # returned false) is one failure mode whatever clause it trips
-    fi = [i for i, d in enumerate(res) if d['fail'] and not d['mismatch'] and d['out'] is not None and not asan]
+    # root cause classification of a known failure mode (fixed in /repo 4911de9): a failing output that is exactly what
+    # the legacy model (second GetIntersection result ignored, stale ip2 emitted; ghost tag 3) produces is reported
+    # under the single key lines.stale-ip2 whatever clause it trips
+    fi = [i for i, d in enumerate(res) if d['fail'] and d['out'] is not None and not asan]
     if fi:
-        tl = tools.model([linest_cmd(cases[i]) for i in fi])
+        tl = tools.model([linest_cmd(cases[i], legacy=True) for i in fi])
         for i, o in zip(fi, tl):
-            if has_stale(o):
+            if has_stale(o) and untagged(o) == res[i]['out']:
                 res[i]['clauses'] = res[i]['fail']
                 res[i]['fail'] = ['lines.stale-ip2']
     return res
 
 
-def linest_cmd(c):
-    return 'LINEST %s %d %s' % (rect_str(c['rect']), len(c['path']), vf.fmt_path(c['path']))
+def linest_cmd(c, legacy=False):
+    return '%s %s %d %s' % ('LINESTL' if legacy else 'LINEST', rect_str(c['rect']), len(c['path']), vf.fmt_path(c['path']))
+
+
+def untagged(o):
+    """'OK npieces {n {x y kind idx}}' -> list of paths"""
+    tk = o.split()
+    if not tk or tk[0] != 'OK':
+        return None
+    pos, ps = 2, []
+    for _ in range(int(tk[1])):
+        k = int(tk[pos]); pos += 1
+        p = []
+        for _ in range(k):
+            p.append((int(tk[pos]), int(tk[pos + 1])))
+            pos += 4
+        ps.append(p)
+    return ps
 
 
 def has_stale(o):
@@ -471,7 +487,7 @@ def record(ctx, tools, case, d):
         small = shrink_generic(case, fails_many, 2) if not key.endswith('crash') else case
         e = eval_lines(tools, [small])[0]
         what = ('RectClipLines violates "%s"%s: rect=%s path=%s -> %s ; spec [shape within-rect order length | inside-len edge-len crossings out-len (2^-20)] = %s'
-                % (key, (' (clauses ' + ','.join(e.get('clauses', [])) + '; the output contains the default-constructed/stale ip2 because the result of the second GetIntersection call is ignored)') if key == 'lines.stale-ip2' else '',
+                % (key, (' (clauses ' + ','.join(e.get('clauses', [])) + '; the output is exactly that of the pre-4911de9 code: default-constructed/stale ip2 emitted because the result of the second GetIntersection call is ignored)') if key == 'lines.stale-ip2' else '',
                    small['rect'], small['path'], e['impl'], ' '.join(e['spec'] or [])))
         ctx.violation(key, what, replay=dict(kind='lines', rect=small['rect'], path=small['path'], key=key,
                                                original=dict(rect=case['rect'], path=case['path'])))
@@ -538,18 +554,18 @@ def explore(ctx, tools, n_random, maxn, asan_n):
     ctx.cov['distinct_nontrivial'] = ctx.cov.get('distinct_nontrivial', 0) + nontriv
     ctx.cov['model_mismatches'] = len(mism)
     ctx.cov['spec_failures'] = nfail
-    # ghost tags of the model: how often does the GetIntersection call whose result the code ignores return false
-    # (tag 3 = stale ip2, the case C09_inside_partial says nothing about)?  Decided by the specification above;
-    # recorded here so that the evidence shows whether that hypothesis was ever exercised.
+    # how often does the second GetIntersection call of a pass-through fail (the situation in which the code before
+    # /repo 4911de9 emitted a stale ip2)?  Measured with the legacy model's ghost tag; recorded so that the evidence
+    # shows that the repaired branch is exercised.
     sub = [c for c in cases if c['style'] != 'lattice']
-    tl = tools.model([linest_cmd(c) for c in sub])
+    tl = tools.model([linest_cmd(c, legacy=True) for c in sub])
     stale = 0
     for c, o in zip(sub, tl):
         if has_stale(o):
             stale += 1
-            ctx.sample(dict(rect=c['rect'], path=c['path'], tagged=o), key='stale_ip2_samples')
-    ctx.cov['stale_ip2_cases'] = stale
-    ctx.cov['stale_ip2_checked'] = len(sub)
+            ctx.sample(dict(rect=c['rect'], path=c['path'], legacy_tagged=o), key='second_intersection_fails_samples')
+    ctx.cov['second_intersection_fails_cases'] = stale
+    ctx.cov['second_intersection_checked'] = len(sub)
     # sanitizer run on a subset: same outputs, no report
     if tools.asan and asan_n:
         sub = cases[:ncorp] + [cases[i] for i in range(ncorp, len(cases), max(1, (len(cases) - ncorp) // asan_n))]
